@@ -119,7 +119,7 @@ def regroup(toks):
 # ----------------------------------------------------------------------------- generic
 
 RULES = {
-    'C12': 'exhaustive over five payload families: all 36 ordered pairs of outputs over Result<u8,u8> with payloads {0,1,2}, all pairs over Result<(),u8>, Result<u8,()>, Result<(),()> (zero-sized payloads) and Result<String,String> (heap payloads) x the five built-in output checkers (through the generic trait impls), plus EqualsChecker/AlwaysConsistent on a non-Result type; each line compared with the model and with the documented relation',
+    'C12': 'exhaustive over seven payload families (the last two with payload types whose Debug text and Eq disagree, in either direction: payload equality is Eq): all 36 ordered pairs of outputs over Result<u8,u8> with payloads {0,1,2}, all pairs over Result<(),u8>, Result<u8,()>, Result<(),()> (zero-sized payloads) and Result<String,String> (heap payloads) x the five built-in output checkers (through the generic trait impls), plus EqualsChecker/AlwaysConsistent on a non-Result type; each line compared with the model and with the documented relation',
 }
 ASSUMPTIONS = {
     'C12': ['payload equality of the checked type is its Eq impl (modelled as a decidable equality)', 'the OutputCheckerObj proxy is crate-private and not probed'],
@@ -158,8 +158,8 @@ def checkers_oracle(toks, lines):
             if (bits[0] == '1') != (a != c) or bits[1] != '0':
                 return 'EqualsChecker/AlwaysConsistent on integers: %s vs stamp of %s gives %s' % (a, c, bits)
             n += 1
-    if n != 36 + 9 + 9 + 4 + 16 + 16:
-        return 'probe printed %d lines instead of 90' % n
+    if n != 36 + 9 + 9 + 4 + 16 + 16 + 16 + 16:
+        return 'probe printed %d lines instead of 122' % n
     return None
 
 # ----------------------------------------------------------------------------- map resource (C14)
